@@ -28,6 +28,15 @@ func oracle(ops, outs []string) *corr.Violation {
 	var bsig []*prov // nil = not an honest signature
 	var esig []*prov
 	idOf := map[string]string{} // key identity -> id label
+	bytesOf := map[string]string{} // message token -> its bytes (hex) when given explicitly
+	sameMsg := func(a, b string) bool {
+		if a == b {
+			return true
+		}
+		x, ok1 := bytesOf[a]
+		y, ok2 := bytesOf[b]
+		return ok1 && ok2 && x == y
+	}
 	for i, op := range ops {
 		w := strings.Fields(op)
 		if len(w) == 0 {
@@ -37,7 +46,31 @@ func oracle(ops, outs []string) *corr.Violation {
 		f := strings.Fields(out)
 		switch w[0] {
 		case "dkg":
-			secret, eseed, bsig, esig, idOf = map[string]string{}, map[string]string{}, nil, nil, map[string]string{}
+			secret, eseed, bsig, esig, idOf, bytesOf = map[string]string{}, map[string]string{}, nil, nil, map[string]string{}, map[string]string{}
+		case "msgb":
+			if len(w) == 4 && out == "ok" {
+				bytesOf[w[1]] = w[2]
+			}
+		case "msg":
+			delete(bytesOf, w[1])
+		case "kdirect":
+			if len(w) == 4 && (out == "true" || out == "false") {
+				var x int
+				if _, err := fmt.Sscanf(w[2], "%d", &x); err != nil || x < 0 || x >= len(bsig) || bsig[x] == nil {
+					continue
+				}
+				p := bsig[x]
+				if p.key == secret[w[1]] && sameMsg(p.m, w[3]) && p.key != "0" && out != "true" {
+					return mk(i, "bls-sign-not-over-the-hash", "what Sign returned is not the library's signature over the bytes of the hash")
+				}
+			}
+		case "cnew":
+		case "csetpk", "csetscheme", "cdecode", "cstatus":
+			if len(f) == 2 && strings.HasPrefix(f[0], "I") {
+				if f[1] != "idok" {
+					return mk(i, "client-id-stale-after-key-change", "the client object's id / cached key bytes are not the sha3-256 / bytes of the public key it currently carries (or Validate disagrees)")
+				}
+			}
 		case "key":
 			if len(w) == 3 && strings.HasPrefix(out, "K") {
 				secret[w[1]] = norm(w[2])
@@ -57,12 +90,12 @@ func oracle(ops, outs []string) *corr.Violation {
 					continue
 				}
 				p := bsig[x]
-				same := p.key == secret[w[1]] && p.m == w[3]
+				same := p.key == secret[w[1]] && sameMsg(p.m, w[3])
 				if same && p.key != "0" && out != "true" {
 					return mk(i, "bls-own-signature-rejected", "a signature does not verify under the signing key for the signed hash")
 				}
 				// another key (different secret) for the same hash, or the same key for another hash, must fail
-				if !same && (p.key == secret[w[1]] || p.m == w[3]) && out == "true" {
+				if !same && (p.key == secret[w[1]] || sameMsg(p.m, w[3])) && out == "true" {
 					return mk(i, "bls-verifies-under-other-key-or-hash", "a signature verifies under another key or for another hash")
 				}
 			}
@@ -91,7 +124,7 @@ func oracle(ops, outs []string) *corr.Violation {
 					}
 					continue
 				}
-				same := p.key == eseed[w[1]] && p.m == w[3]
+				same := p.key == eseed[w[1]] && sameMsg(p.m, w[3])
 				if same && out != "true" {
 					return mk(i, "ed25519-own-signature-rejected", "a signature does not verify under the signing key for the signed hash")
 				}
